@@ -3,13 +3,15 @@ import Refinery.Model.BatchHandler
 /-
 Oracle for "responses reflect what happened to the data" (C23).
 case args: responses
-op:  req ep=<event|batch|otlp-http-traces|otlp-http-logs|otlp-grpc-traces|otlp-grpc-logs>
+op:  req rt=<incoming|peer> ep=<event|batch|otlp-http-traces|otlp-http-logs|otlp-grpc-traces|otlp-grpc-logs>
+         (rt: which router serves it — RouterTypeIncoming or RouterTypePeer; gRPC exists on incoming only)
          via=<mux|direct> enc=<json|msgpack|proto> ct=<ok|bad> ds=<ok|bad> key=<classic|es|none>
          env=<ok|fail|upok|up401|up500>
          body=<ok|gzip|zstd|readerr|badgzip|truncgzip|badzstd|garbage|truncated|oversize>
          evs=<letters|->    e empty data, d no data member, n no trace id, p peer's trace,
                             l own trace, f own trace with the collector queue full, x probe
-obs: w=<H<code>|B<err|list:s:s..|empty|other>|G<grpc code>,…> up=<i,…|-> peer=… coll=… ref=…
+obs: w=<H<code>|B<err|list:s:s..|empty|other>|G<grpc code>,…> up=<i,…|-> peer=… coll=… ref=… cq=<in|peer|mixed|->
+     (cq: which collector method was called: AddSpan / AddSpanFromPeer)
 
 How the concrete faults map onto the model's fault points:
   key=none                      → keyBlank
@@ -33,6 +35,7 @@ def itemsOf (s : String) : Option (List Item) :=
   if s == "-" then some [] else s.toList.mapM itemOf
 
 structure POp where
+  lst : Listener
   ep : String
   viaMux : Bool
   f : Faults
@@ -45,6 +48,7 @@ def allIn (items : List Item) (ok : List Item) : Bool := items.all fun i => ok.c
 def parseOp (op : List String) : Option POp := do
   guard (op.head? == some "req")
   let ep ← kv op "ep"
+  let lst ← (match kv op "rt" with | some "incoming" => some Listener.incoming | some "peer" => some Listener.peer | _ => none)
   let via ← kv op "via"
   let enc ← kv op "enc"
   let ct ← kv op "ct"
@@ -77,21 +81,23 @@ def parseOp (op : List String) : Option POp := do
     match items with
     | [it] =>
       guard (it != .noData)
-      pure ⟨ep, viaMux, f, items, .event viaMux f it⟩
+      pure ⟨lst, ep, viaMux, f, items, .event viaMux f it⟩
     | _ => none
-  | "batch" => pure ⟨ep, viaMux, f, items, .batch viaMux f items⟩
+  | "batch" => pure ⟨lst, ep, viaMux, f, items, .batch viaMux f items⟩
   | "otlp-http-traces" =>
     guard (allIn items [.peer, .localOk, .localFull])
-    pure ⟨ep, viaMux, f, items, .otlpHttp false f items⟩
+    pure ⟨lst, ep, viaMux, f, items, .otlpHttp false f items⟩
   | "otlp-http-logs" =>
     guard (allIn items [.nonTrace, .peer, .localOk, .localFull])
-    pure ⟨ep, viaMux, f, items, .otlpHttp true f items⟩
+    pure ⟨lst, ep, viaMux, f, items, .otlpHttp true f items⟩
   | "otlp-grpc-traces" =>
     guard (allIn items [.peer, .localOk, .localFull] ∧ ct == "ok" ∧ !readF ∧ ["ok", "garbage", "truncated"].contains body)
-    pure ⟨ep, viaMux, f, items, .otlpGrpc false f items⟩
+    guard (lst == .incoming)
+    pure ⟨lst, ep, viaMux, f, items, .otlpGrpc false f items⟩
   | "otlp-grpc-logs" =>
     guard (allIn items [.nonTrace, .peer, .localOk, .localFull] ∧ ct == "ok" ∧ body == "ok")
-    pure ⟨ep, viaMux, f, items, .otlpGrpc true f items⟩
+    guard (lst == .incoming)
+    pure ⟨lst, ep, viaMux, f, items, .otlpGrpc true f items⟩
   | _ => none
 
 /-! ## rendering the model's prediction -/
@@ -128,15 +134,23 @@ def idxStr (items : List Item) (i : Nat) : String :=
 
 def strList (l : List String) : String := if l.isEmpty then "-" else ",".intercalate l
 
-def render (items : List Item) (o : Out) : String :=
+def queueStr : Queue → String
+  | .addSpan => "in" | .addSpanFromPeer => "peer"
+
+def render (l : Listener) (items : List Item) (o : Out) : String :=
   let w := ",".intercalate (normalize (o.acts.flatMap actWrites))
-  let atSink (s : Sink) := (o.eff.sent.filter (·.2 == s)).map fun p => idxStr items p.1
-  s!"w={w} up={strList (atSink .upstream)} peer={strList (atSink .peer)} coll={strList (atSink .collector)} ref={strList (o.eff.refused.map (idxStr items))}"
+  let atSink (f : Sink → Bool) := (o.eff.sent.filter (fun p => f p.2)).map fun p => idxStr items p.1
+  let isColl : Sink → Bool := fun s => match s with | .collector _ => true | _ => false
+  -- queues of the accepted spans; a refusal comes from the listener's queue as well
+  let qs := (o.eff.sent.filterMap fun p => match p.2 with | .collector q => some (queueStr q) | _ => none) ++
+            (if o.eff.refused.isEmpty then [] else [queueStr (collectorQueue l)])
+  let cq := match qs.eraseDups with | [] => "-" | [q] => q | _ => "mixed"
+  s!"w={w} up={strList (atSink (· == .upstream))} peer={strList (atSink (· == .peer))} coll={strList (atSink isColl)} ref={strList (o.eff.refused.map (idxStr items))} cq={cq}"
 
 def respStep (st : Unit) (op : List String) (_ : List (List String)) : Unit × Option String :=
   match parseOp op with
   | none => (st, some "bad-op")
-  | some p => (st, some (render p.items (handle variant p.req)))
+  | some p => (st, some (render p.lst p.items (handle variant p.lst p.req)))
 
 /-! ## monitor: the property evaluated on what the implementation answered and did -/
 
@@ -241,7 +255,13 @@ def respMon (m : Unit) (op : List String) (_ : List (List String)) (obs : Option
     let fE := if marked.eraseDups.length != marked.length then
         [mkFail (pre ++ "duplicate-effect") s!"an event reached more than one sink: up {strList up} peer {strList peer} coll {strList coll} refused {strList ref}"]
       else []
-    (m, fA ++ fB ++ fC ++ fD ++ fE)
+    -- (F) the listener kind only selects the collector queue
+    let cq := (kv toks "cq").getD "-"
+    let want := queueStr (collectorQueue p.lst)
+    let fF := if cq != "-" && cq != want then
+        [mkFail (pre ++ "wrong-collector-queue") s!"request on the {want} listener, collector called through {cq}"]
+      else []
+    (m, fA ++ fB ++ fC ++ fD ++ fE ++ fF)
   | _, _ => (m, [])
 
 def comp : Component Unit Unit where
